@@ -37,7 +37,7 @@ func isFloat(t types.Type) bool {
 }
 
 func runC17(e *Engine, r *Report, tier string) {
-	r.Explanation = "C17, structural clauses over fx-core code reachable (module-scoped call graph) from transaction, block, genesis and upgrade entry points. Decided: R1 every `range` over a map is classified by what its body does to anything that outlives the loop — allowed: writes into other maps, delete, counting, commutative exact accumulation (math.Int / LegacyDec .Add, integer +=), append to a slice that is sorted before any other use; violation: a call with a state effect or taking a context, event emission, append without a dominating sort, an early exit; R2 no wall clock, randomness, environment, goroutines, select or channel operations, and no process-local data (stack dumps, caller info, goroutine/CPU counts, pid) outside logger calls; R3 floating point only in the two reviewed places (power difference, rendered with fixed precision before use), no float value reaches a store write or branch elsewhere; R4 node-local switches (IsCheckTx, IsReCheckTx, MinGasPrices) never guard a state effect; R5 no process-local mutable state: no package-level variable is written and no sync/atomic or sync.Map/Once cell is updated by code in scope (a memoised value would depend on what the process executed before); R6 no function writes in place into bytes it read from a KVStore or iterator — those slices are shared with the parent store's pending writes and the process's cached tree nodes, so a discarded branch (simulation, gas estimation, reverted frame) would change what later blocks read on this process only. Not decided: determinism of dependencies, cgo and the Go runtime."
+	r.Explanation = "C17, structural clauses over fx-core code reachable (module-scoped call graph) from transaction, block, genesis and upgrade entry points. Decided: R1 every `range` over a map is classified by what its body does to anything that outlives the loop — allowed: writes into other maps, delete, counting, commutative exact accumulation (math.Int / LegacyDec .Add, integer +=), append to a slice that is sorted before any other use; violation: a call with a state effect or taking a context, event emission, append without a dominating sort, an early exit; R2 no wall clock, randomness, environment, goroutines, select or channel operations, and no process-local data (stack dumps, caller info, goroutine/CPU counts, pid) outside logger calls; R3 floating point only in the two reviewed places (power difference, rendered with fixed precision before use), no float value reaches a store write or branch elsewhere; R4 node-local switches (IsCheckTx, IsReCheckTx, MinGasPrices) never guard a state effect, and a switch read from the node's configuration (IsTelemetryEnabled) never guards a call that takes the context (a metered store read under it changes gas used); R5 no process-local mutable state: no package-level variable is written and no sync/atomic or sync.Map/Once cell is updated by code in scope (a memoised value would depend on what the process executed before); R6 no function writes in place into bytes it read from a KVStore or iterator — those slices are shared with the parent store's pending writes and the process's cached tree nodes, so a discarded branch (simulation, gas estimation, reverted frame) would change what later blocks read on this process only. Not decided: determinism of dependencies, cgo and the Go runtime."
 	scope := e.consensusScope()
 	var fns []*ssa.Function
 	for f := range scope {
@@ -130,7 +130,7 @@ func runC17(e *Engine, r *Report, tier string) {
 				}
 				// R4
 				n := callName(x)
-				if n == "IsCheckTx" || n == "IsReCheckTx" || n == "MinGasPrices" {
+				if n == "IsCheckTx" || n == "IsReCheckTx" || n == "MinGasPrices" || n == "IsTelemetryEnabled" {
 					if v, ok := x.(ssa.Value); ok {
 						for _, ref := range *v.Referrers() {
 							iff, ok := ref.(*ssa.If)
@@ -154,6 +154,19 @@ func runC17(e *Engine, r *Report, tier string) {
 								for _, b := range fn.Blocks {
 									if (b == start || start.Dominates(b)) && edgeDominates(iff.Block(), start, b) {
 										for _, in := range b.Instrs {
+											// a switch read from the node's own configuration while a block is executed: even a store *read*
+											// under it changes the gas a transaction uses
+											if n == "IsTelemetryEnabled" {
+												if c2, ok := in.(ssa.CallInstruction); ok {
+													for _, a := range callArgs(c2) {
+														if isCtxType(a.Type()) && callName(c2) != "Logger" {
+															nlocal++
+															r.Fail("R4", key+" "+n, e.InstrPos(in), "`"+callName(c2)+"(ctx, …)` runs only when this node has telemetry enabled ("+n+"() reads the node's own app.toml): a gas-metered store access under it makes gas used, and with a tight gas limit the outcome of the transaction, differ between nodes")
+														}
+													}
+												}
+												continue
+											}
 											if eff := e.EffectOf(in); eff != "" && !strings.Contains(fnPkgPath(fn), "/ante") {
 												nlocal++
 												r.Fail("R4", key+" "+n, e.InstrPos(in), "state effect `"+eff+"` depends on the node-local switch "+n+"(): nodes would compute different states")
